@@ -117,3 +117,41 @@ static Args c01_shape_decode(Ctx&, Dec& d)
 static Reg r_c01_shape({ "C01.shape", "C01", "rc",
   "call shapes in which the operator is inlined into a caller: operands whose signs the caller already tested (raw and fixed_t comparisons), x+x, x+x+x, x-(-x), isnan(a+b), accumulation loops acc+=step / acc-=step (n<=16), chained x+=b;x-=c, three-term sums; operands built to satisfy the guard with the exact result targeted at the range boundary; oracle: exact model step by step (a step whose operand is already NaN is outside the property and the case is skipped); non-trivial = a step overflows or the result is within 2^17 of +-MAXF",
   c01_shape_check, 28, c01_shape_decode, nullptr });
+
+// ---- C01.const: generated programs in which one operand is a compile-time constant -------------
+// The driver generates, from VERIF_SEED, a translation unit with constants K_i and the shapes
+//   0: a + K   1: K + a   2: a - K   3: K - a   4: a += K   5: four-fold acc += K   6: isnan(a + K)
+// and compiles it under every configuration (cutk_<cfg>.so). args = [index into the table, a].
+static void c01_const_check(Ctx& ctx, const Args& a)
+{
+  if (a.size() != 2 || !m_finite128(a[1]) || ctx.cuts.empty() || !ctx.cuts[0].ktable || a[0] < 0 || a[0] >= ctx.cuts[0].nk) { ctx.skip(); return; }
+  int idx = (int)a[0]; const Cut::KEntry& ke = ctx.cuts[0].ktable[idx]; int64_t K = ke.k, x = a[1]; MV e; bool isbool = false;
+  MV X = MV::fin(x), KK = MV::fin(K);
+  switch (ke.shape) {
+    case 0: case 4: e = m_add(X, KK); break; case 1: e = m_add(KK, X); break; case 2: e = m_sub(X, KK); break; case 3: e = m_sub(KK, X); break;
+    case 5: { MV acc = X; for (int i = 0; i < 4; ++i) acc = m_add(acc, KK); e = acc; break; }
+    case 6: { MV r = m_add(X, KK); e = MV::fin(r.k == MV::NAN_ ? 1 : 0); isbool = true; break; }
+    default: ctx.skip(); return;
+  }
+  if (e.k == MV::UNSPEC) { ctx.skip(); return; }
+  static const char* sh[7] = { "a+K", "K+a", "a-K", "K-a", "a+=K", "4x acc+=K", "isnan(a+K)" }; ctx.cls(sh[ke.shape]);
+  if (e.k == MV::NAN_ || (isbool && e.v == 1)) { ctx.cls("overflow"); ctx.nontriv(); } else if (!isbool && iabs128(e.v) >= (i128)MAXF - 131072) { ctx.cls("near-limit"); ctx.nontriv(); }
+  for (size_t ci = 0; ci < ctx.cuts.size(); ++ci) {
+    const Cut& cu = ctx.cuts[ci]; if (!cu.ktable || cu.nk <= idx || cu.ktable[idx].k != K || cu.ktable[idx].shape != ke.shape) { ctx.fail(ci, "generated constant tables differ between configurations (harness error)"); continue; }
+    CallResult r = cut_call_k(cu, idx, x); ++ctx.executions;
+    if (ctx.verbose()) ctx.case_calls.push_back(strf("%s %s(a=%" PRId64 ", K=%" PRId64 ") -> %" PRId64, cu.name.c_str(), ke.name, x, K, r.v));
+    if (r.trap) { ctx.fail(ci, strf("%s with K=%" PRId64 ", a=%" PRId64 " did not return: %s", sh[ke.shape], K, x, g_trap_why)); continue; }
+    bool ok = e.k == MV::NAN_ ? m_isnan(r.v) : r.v == (int64_t)e.v;
+    if (!ok) ctx.fail(ci, strf("%s with compile-time constant K=%" PRId64 ", a=%" PRId64 " = %" PRId64 ", expected %s", sh[ke.shape], K, x, r.v, e.k == MV::NAN_ ? "NaN" : i128s(e.v).c_str()));
+  }
+}
+static Args c01_const_decode(Ctx& ctx, Dec& d)
+{
+  int nk = ctx.cuts.empty() || !ctx.cuts[0].ktable ? 1 : ctx.cuts[0].nk; int idx = (int)d.range(0, nk - 1); int64_t a = dec_raw(d); int mode = (int)d.range(0, 3); int ti = (int)d.range(0, kNAddTargets - 1); int dl = (int)d.range(-3, 3);
+  if (mode && ctx.cuts[0].ktable) { const Cut::KEntry& ke = ctx.cuts[0].ktable[idx]; i128 T = kAddTargets[ti] + dl, K = ke.k;
+    switch (ke.shape) { case 0: case 1: case 4: case 6: a = fin_clamp(T - K); break; case 2: a = fin_clamp(T + K); break; case 3: a = fin_clamp(K - T); break; case 5: a = fin_clamp(T - 4 * K); break; } }
+  return { idx, a };
+}
+static Reg r_c01_const({ "C01.const", "C01", "rc",
+  "generated programs: a translation unit generated from VERIF_SEED with compile-time constant operands K_i (boundary, power-of-two, small and random constants) in the shapes a+K, K+a, a-K, K-a, a+=K, four-fold acc+=K, isnan(a+K), compiled under every configuration; the run-time operand a is result-targeted (a solved so that the exact result is a range boundary +-3); oracle: exact model; non-trivial = the exact result leaves the range or lies within 2^17 of the limit",
+  c01_const_check, 16, c01_const_decode, nullptr });
